@@ -78,6 +78,23 @@ impl<'a> IntoIterator for &'a Cfg {
     }
 }
 
+/// The members of a node set in the order of their source positions, so that
+/// walks over the graph do not depend on the iteration order of hash sets.
+#[allow(clippy::mutable_key_type)]
+pub(crate) fn in_source_order(set: &HashSet<Rc<CfgNode>>) -> Vec<Rc<CfgNode>> {
+    let mut nodes = set.iter().cloned().collect::<Vec<_>>();
+    nodes.sort_by_key(|node| {
+        let range = node.range();
+        (
+            range.start().raw_index(),
+            range.end().raw_index(),
+            node.is_function_entry(),
+            node.file(),
+        )
+    });
+    nodes
+}
+
 trait BaseCfgGen {
     fn call_names(&self) -> HashSet<LabelStringToken>;
     fn jump_names(&self) -> HashSet<LabelStringToken>;
@@ -262,7 +279,7 @@ impl Cfg {
         let mut queue = VecDeque::new();
         let mut ranges = Vec::new();
         // push the previous nodes onto the queue
-        queue.extend(node.prevs().clone());
+        queue.extend(in_source_order(&node.prevs()));
 
         // keep track of visited nodes
         #[allow(clippy::mutable_key_type)]
@@ -283,7 +300,7 @@ impl Cfg {
                     continue;
                 }
             }
-            queue.extend(prev.prevs().clone().into_iter());
+            queue.extend(in_source_order(&prev.prevs()));
         }
         ranges
     }
@@ -295,7 +312,7 @@ impl Cfg {
         let mut ranges = Vec::new();
         // push the next nodes onto the queue
 
-        queue.extend(node.nexts().clone());
+        queue.extend(in_source_order(&node.nexts()));
 
         // keep track of visited nodes
         #[allow(clippy::mutable_key_type)]
@@ -327,7 +344,7 @@ impl Cfg {
                 break;
             }
 
-            queue.extend(next.nexts().clone().into_iter());
+            queue.extend(in_source_order(&next.nexts()));
         }
         ranges
     }
